@@ -1199,6 +1199,9 @@ func (in *Interp) valuesOf(fn *ssa.Function) []ssa.Value {
 // isEnumPhi: φ all of whose incoming edges are small constants stays disjunctive (DESIGN §2.9).
 func isEnumPhi(phi *ssa.Phi) bool {
 	for _, e := range phi.Edges {
+		if _, isFn := e.(*ssa.Function); isFn {
+			continue // a choice between named functions (op := growFile; if … { op = shrinkFile })
+		}
 		c, ok := e.(*ssa.Const)
 		if !ok || c.Value == nil {
 			return false
@@ -1257,6 +1260,9 @@ func (in *Interp) key(fn *ssa.Function, f *FState, coarse bool) string {
 		if phi, ok := v.(*ssa.Phi); ok && isEnumPhi(phi) {
 			if c, ok := av.(ConstV); ok {
 				parts = append(parts, fmt.Sprintf("e%d=%s", in.siteID(phi), c.c.ExactString()))
+			}
+			if c, ok := av.(ClosureV); ok && len(c.binds) == 0 {
+				parts = append(parts, fmt.Sprintf("e%d=f:%s", in.siteID(phi), c.fn.String()))
 			}
 		}
 	}
